@@ -629,7 +629,7 @@ class LazyList(list):
     self._reader = reader
 
   def __iter__(self):
-    return self._reader
+    return iter(self._reader)
 
 
 def mixer_listlike_real(P, i, p):
